@@ -55,10 +55,12 @@ def compiler(basename, args, outputname, savename, fixed_file=None, synth=False,
     fixed_sequences = load_fixed(fixed_file)
     for type_, name, fixed_seq in fixed_sequences:
       if type_ in "sequence":
-        try: 
-          system.seqs[name].fix_seq( fixed_seq )
+        try:
+          target = system.seqs[name]
         except KeyError:
           warning("Sequence {} in fixed sequences not found/used in system.".format(name))
+        else:
+          target.fix_seq( fixed_seq )
       elif type_ in "signal":
         # As a small hack, fix the first sequence in the list for the signal.
         try:
@@ -69,14 +71,18 @@ def compiler(basename, args, outputname, savename, fixed_file=None, synth=False,
           fix_signal(system, name, fixed_seq)
       elif type_ == "strand":
         try:
-          system.strands[name].fix_seq( fixed_seq )
+          target = system.strands[name]
         except KeyError:
           warning("Strand {} in fixed sequences not found/used in system.".format(name))
+        else:
+          target.fix_seq( fixed_seq )
       elif type_ == "structure":
         try:
-          system.structs[name].fix_seq( fixed_seq )
+          target = system.structs[name]
         except KeyError:
           warning("Structure {} in fixed sequences not found/used in system.".format(name))
+        else:
+          target.fix_seq( fixed_seq )
   
 
   # Write the Zadeh-style design file
